@@ -8,6 +8,9 @@ import PyModeS.Proofs.Infer.Sound
 import PyModeS.Proofs.Infer.Bds50
 import PyModeS.Proofs.Infer.Bds40
 import PyModeS.Proofs.Infer.Bds60
+import PyModeS.Proofs.Infer.Bds44
+import PyModeS.Proofs.Infer.Bds45
+import PyModeS.Proofs.Infer.Bds53
 namespace PyModeS.C12
 
 /-- an all-zero MB field of a 112-bit frame is reported as EMPTY whatever the header says -/
@@ -555,6 +558,244 @@ theorem infer_none_of_no_rule (ias : Rat → Int → Rat) (bits : Bits) (mrar : 
     infer ias bits mrar = .val none :=
   infer_commb_eq_rules ias bits mrar h hz hadsb false false false false false false false false false
     h10 h17 h20 h30 h40 h44 h45 h50 h60
+
+
+/-! ### 12. BDS 4,4, BDS 4,5 and BDS 5,3 in integer terms; completeness of BDS 4,4 and BDS 4,5
+
+  Proofs in PyModeS/Proofs/Infer/{Bds44,Bds45,Bds53}.lean.  Same conventions as `is50_iff`: `bitAt d i` is bit `i`
+  (0-based) of the MB field, `fld d a b` the unsigned `d[a:b]`, `sval d sg a b` the value of sign bit `sg` and
+  magnitude `d[a:b]` (`fld d a b − 2^(b−a)` when the sign bit is set). -/
+
+theorem rules53_as_coded : rules53 = [(1, 3, 12), (13, 14, 23), (24, 25, 33), (34, 35, 46), (47, 49, 56)] := rfl
+
+/-- the two temperature readings of `temp44` are the signed field (sign MB bit 24, magnitude MB bits 25-34) over 4
+    and over 8 -/
+theorem temp44_frame (bits : Bits) (h : bits.length = 112) :
+    temp44 bits = .val ((sval (mbOf bits) 23 24 34 : Rat) / 4, (sval (mbOf bits) 23 24 34 : Rat) / 8) := by
+  rw [temp44_val bits h]
+  unfold temp44P
+  rw [temp44V_eq]
+
+/-- the temperature of `temp45` is the signed field (sign MB bit 17, magnitude MB bits 18-26) over 4, whatever the
+    status bit (MB bit 16) says -/
+theorem temp45_frame (bits : Bits) (h : bits.length = 112) :
+    temp45 bits = .val ((sval (mbOf bits) 16 17 26 : Rat) / 4) := by
+  rw [temp45_val bits h]
+  unfold temp45P
+  rw [temp45V_eq]
+
+/-- the temperature test of `is44` on the signed field value `v`: `min(v/4, v/8) > 60 ∨ max(v/4, v/8) < −80`
+    rejects exactly the values outside −640..480 -/
+theorem is44_temperature_rule (v : Int) :
+    (min ((v : Rat) / 4) ((v : Rat) / 8) > 60 ∨ max ((v : Rat) / 4) ((v : Rat) / 8) < -80) ↔ ¬ (-640 ≤ v ∧ v ≤ 480) :=
+  temp44_bound v
+
+/-- the temperature test of `is45` on the signed field value `v`: `t ≠ 0 ∧ (t > 60 ∨ t < −80)` with `t = v/4`
+    rejects exactly the values outside −320..240 (0 lies inside, so the `t ≠ 0` exemption changes nothing) -/
+theorem is45_temperature_rule (v : Int) :
+    ((v : Rat) / 4 ≠ 0 ∧ ((v : Rat) / 4 > 60 ∨ (v : Rat) / 4 < -80)) ↔ ¬ (-320 ≤ v ∧ v ≤ 240) :=
+  temp45_bound v
+
+/-- `is44` exactly, in integers: not all zero, the four status rules (wind, pressure, turbulence, humidity), source
+    field (MB bits 1-4) ≤ 4, wind speed (MB bits 6-14) ≤ 250 kt when the wind status (MB bit 5) is set, and the signed
+    temperature field (sign MB bit 24, magnitude MB bits 25-34; there is no status bit) in −640..480, i.e. not both
+    readings v/4 and v/8 above 60 °C and not both below −80 °C -/
+theorem is44_iff (bits : Bits) (h : bits.length = 112) :
+    is44 bits = .val true ↔
+      (bin2int (mbOf bits) ≠ 0 ∧ statusP (mbOf bits) rules44 = true ∧ fld (mbOf bits) 0 4 ≤ 4 ∧
+        (bitAt (mbOf bits) 4 = true → fld (mbOf bits) 5 14 ≤ 250) ∧
+        -640 ≤ sval (mbOf bits) 23 24 34 ∧ sval (mbOf bits) 23 24 34 ≤ 480) := by
+  rw [is44_val bits h, ← is44P_iff]
+  constructor
+  · intro hv; injection hv
+  · intro hv; rw [hv]
+
+/-- completeness with the exact temperature range of the rule: source ≤ 4, value 0 where a status bit is 0, wind
+    speed ≤ 250 when present, signed temperature field (`s10 gt mt`: sign `gt`, 10-bit magnitude `mt`) in −640..480,
+    field widths respected, payload not all zero (given the zero-when-absent hypotheses this is: source, a status
+    bit, or the temperature field non-zero) -/
+theorem is44_complete_exact (hdr par : Bits) (hh : hdr.length = 32) (hp : par.length = 24)
+    (src : Nat) (sw : Bool) (wspd wdir : Nat) (gt : Bool) (mt : Nat) (sp : Bool) (p : Nat)
+    (st : Bool) (turb : Nat) (sh : Bool) (hum : Nat)
+    (hsrc : src ≤ 4) (hws : wspd < 512) (hwd : wdir < 512) (hmt : mt < 1024) (hpr : p < 2048)
+    (htb : turb < 4) (hhm : hum < 64)
+    (z1 : sw = false → wspd = 0 ∧ wdir = 0) (z2 : sp = false → p = 0) (z3 : st = false → turb = 0)
+    (z4 : sh = false → hum = 0)
+    (hw : sw = true → wspd ≤ 250) (ht : -640 ≤ s10 gt mt ∧ s10 gt mt ≤ 480)
+    (hne : src ≠ 0 ∨ sw = true ∨ gt = true ∨ mt ≠ 0 ∨ sp = true ∨ st = true ∨ sh = true) :
+    is44 (hdr ++ build [(4, src), (1, sw.toNat), (9, wspd), (9, wdir), (1, gt.toNat), (10, mt), (1, sp.toNat),
+      (11, p), (1, st.toNat), (2, turb), (1, sh.toNat), (6, hum)] ++ par) = .val true := by
+  have hl := mb44_length src sw wspd wdir gt mt sp p st turb sh hum
+  have hlen : (hdr ++ mb44 src sw wspd wdir gt mt sp p st turb sh hum ++ par).length = 112 := by
+    simp only [List.length_append, hh, hp, hl]
+  show is44 (hdr ++ mb44 src sw wspd wdir gt mt sp p st turb sh hum ++ par) = .val true
+  rw [is44_val _ hlen, mbOf_frame hdr _ par hh hl,
+    is44P_mb44 src sw wspd wdir gt mt sp p st turb sh hum hsrc hws hwd hmt hpr htb hhm z1 z2 z3 z4 hw ht hne]
+
+/-- completeness of BDS 4,4 on plausible data: as above with the temperature within −80 °C … +60 °C in the 0.25 °C
+    reading (signed field in −320..240), which lies inside the accepted range −640..480 -/
+theorem is44_complete (hdr par : Bits) (hh : hdr.length = 32) (hp : par.length = 24)
+    (src : Nat) (sw : Bool) (wspd wdir : Nat) (gt : Bool) (mt : Nat) (sp : Bool) (p : Nat)
+    (st : Bool) (turb : Nat) (sh : Bool) (hum : Nat)
+    (hsrc : src ≤ 4) (hws : wspd < 512) (hwd : wdir < 512) (hmt : mt < 1024) (hpr : p < 2048)
+    (htb : turb < 4) (hhm : hum < 64)
+    (z1 : sw = false → wspd = 0 ∧ wdir = 0) (z2 : sp = false → p = 0) (z3 : st = false → turb = 0)
+    (z4 : sh = false → hum = 0)
+    (hw : sw = true → wspd ≤ 250) (ht : -320 ≤ s10 gt mt ∧ s10 gt mt ≤ 240)
+    (hne : src ≠ 0 ∨ sw = true ∨ gt = true ∨ mt ≠ 0 ∨ sp = true ∨ st = true ∨ sh = true) :
+    is44 (hdr ++ build [(4, src), (1, sw.toNat), (9, wspd), (9, wdir), (1, gt.toNat), (10, mt), (1, sp.toNat),
+      (11, p), (1, st.toNat), (2, turb), (1, sh.toNat), (6, hum)] ++ par) = .val true :=
+  is44_complete_exact hdr par hh hp src sw wspd wdir gt mt sp p st turb sh hum hsrc hws hwd hmt hpr htb hhm
+    z1 z2 z3 z4 hw ⟨by omega, by omega⟩ hne
+
+/-- … and therefore "BDS44" is in `infer`'s answer for such a Comm-B reply when `mrar` is requested -/
+theorem infer_reports_44 (ias : Rat → Int → Rat) (bits : Bits) (h : bits.length = 112)
+    (h44 : is44 bits = .val true) : "BDS44" ∈ labelsP ias bits true := by
+  rw [is44_val bits h] at h44
+  injection h44 with h44
+  exact (label_mem_iff ias bits true).2.2.2.2.2.1.mpr ⟨h44, rfl⟩
+
+/-- without `mrar` it never is -/
+theorem infer_omits_44_45 (ias : Rat → Int → Rat) (bits : Bits) :
+    "BDS44" ∉ labelsP ias bits false ∧ "BDS45" ∉ labelsP ias bits false := by
+  obtain ⟨_, _, _, _, _, m44, m45, _⟩ := label_mem_iff ias bits false
+  constructor
+  · intro hm; exact absurd (m44.mp hm).2 (by decide)
+  · intro hm; exact absurd (m45.mp hm).2 (by decide)
+
+/-- a DF20 frame with a BDS 4,4-looking payload: source 1 (INS), wind 22 kt from 100 × 180/256°, temperature field
+    −160 (−40 °C), pressure 250 hPa, turbulence 1, humidity field 30 -/
+def exFrame44 : Bits := natToBits 32 0xA0001838 ++ build [(4, 1), (1, 1), (9, 22), (9, 100), (1, 1), (10, 864), (1, 1),
+  (11, 250), (1, 1), (2, 1), (1, 1), (6, 30)] ++ natToBits 24 0x123456
+
+theorem exFrame44_length : exFrame44.length = 112 := by decide
+
+/-- the hypotheses of `is44_complete` are met by a concrete payload -/
+example : is44 exFrame44 = .val true :=
+  is44_complete _ _ (by decide) (by decide) 1 true 22 100 true 864 true 250 true 1 true 30
+    (by decide) (by decide) (by decide) (by decide) (by decide) (by decide) (by decide) (by decide) (by decide)
+    (by decide) (by decide) (by decide) (by decide) (by decide)
+
+example : s10 true 864 = -160 := by decide
+
+example : "BDS44" ∈ labelsP (fun _ _ => 0) exFrame44 true :=
+  infer_reports_44 _ _ exFrame44_length
+    (is44_complete _ _ (by decide) (by decide) 1 true 22 100 true 864 true 250 true 1 true 30
+      (by decide) (by decide) (by decide) (by decide) (by decide) (by decide) (by decide) (by decide) (by decide)
+      (by decide) (by decide) (by decide) (by decide) (by decide))
+
+/-- both sides of `is44_iff` on concrete frames: the temperature field 480 (60 °C at 0.125 °C per unit) is the last
+    accepted value, 481 is rejected; wind speed 251 kt is rejected -/
+example : is44 (natToBits 32 0xA0001838 ++ build [(4, 1), (1, 0), (9, 0), (9, 0), (1, 0), (10, 480), (1, 0),
+    (11, 0), (1, 0), (2, 0), (1, 0), (6, 0)] ++ natToBits 24 0) = .val true := by decide +kernel
+example : is44 (natToBits 32 0xA0001838 ++ build [(4, 1), (1, 0), (9, 0), (9, 0), (1, 0), (10, 481), (1, 0),
+    (11, 0), (1, 0), (2, 0), (1, 0), (6, 0)] ++ natToBits 24 0) = .val false := by decide +kernel
+example : is44 (natToBits 32 0xA0001838 ++ build [(4, 1), (1, 1), (9, 251), (9, 0), (1, 0), (10, 0), (1, 0),
+    (11, 0), (1, 0), (2, 0), (1, 0), (6, 0)] ++ natToBits 24 0) = .val false := by decide +kernel
+
+/-- `is45` exactly, in integers: not all zero, the eight status rules, the reserved MB bits 52-56 zero, and the signed
+    temperature field (sign MB bit 17, magnitude MB bits 18-26) in −320..240, i.e. −80 °C ≤ t ≤ 60 °C.  As in the
+    source, the temperature is range-checked whatever its status bit (MB bit 16) says, and a temperature of exactly 0
+    is exempt from the range check — which changes nothing, 0 being in range:
+    `v = 0 ∨ (−320 ≤ v ∧ v ≤ 240)` is `−320 ≤ v ∧ v ≤ 240` (`is45_temperature_rule`) -/
+theorem is45_iff (bits : Bits) (h : bits.length = 112) :
+    is45 bits = .val true ↔
+      (bin2int (mbOf bits) ≠ 0 ∧ statusP (mbOf bits) rules45 = true ∧ fld (mbOf bits) 51 56 = 0 ∧
+        -320 ≤ sval (mbOf bits) 16 17 26 ∧ sval (mbOf bits) 16 17 26 ≤ 240) := by
+  rw [is45_val bits h, ← is45P_iff]
+  constructor
+  · intro hv; injection hv
+  · intro hv; rw [hv]
+
+/-- completeness of BDS 4,5: every choice of the eight (status, value) pairs — turbulence, wind shear, microburst,
+    icing, wake vortex (2 bits each), static air temperature (sign `gt`, 9-bit magnitude `mt`), pressure (11 bits),
+    radio height (12 bits) — with value 0 where the status is 0 (sign and magnitude for the temperature), signed
+    temperature field in −320..240 when present, the five reserved bits zero, and not everything absent -/
+theorem is45_complete (hdr par : Bits) (hh : hdr.length = 32) (hp : par.length = 24)
+    (s1 : Bool) (turb : Nat) (s2 : Bool) (ws : Nat) (s3 : Bool) (mb : Nat) (s4 : Bool) (ic : Nat)
+    (s5 : Bool) (wv : Nat) (s6 gt : Bool) (mt : Nat) (s7 : Bool) (p : Nat) (s8 : Bool) (rh : Nat)
+    (h1 : turb < 4) (h2 : ws < 4) (h3 : mb < 4) (h4 : ic < 4) (h5 : wv < 4) (h6 : mt < 512)
+    (h7 : p < 2048) (h8 : rh < 4096)
+    (z1 : s1 = false → turb = 0) (z2 : s2 = false → ws = 0) (z3 : s3 = false → mb = 0)
+    (z4 : s4 = false → ic = 0) (z5 : s5 = false → wv = 0) (z6 : s6 = false → gt = false ∧ mt = 0)
+    (z7 : s7 = false → p = 0) (z8 : s8 = false → rh = 0)
+    (ht : s6 = true → -320 ≤ s9 gt mt ∧ s9 gt mt ≤ 240)
+    (hne : s1 = true ∨ s2 = true ∨ s3 = true ∨ s4 = true ∨ s5 = true ∨ s6 = true ∨ s7 = true ∨ s8 = true) :
+    is45 (hdr ++ build [(1, s1.toNat), (2, turb), (1, s2.toNat), (2, ws), (1, s3.toNat), (2, mb), (1, s4.toNat),
+      (2, ic), (1, s5.toNat), (2, wv), (1, s6.toNat), (1, gt.toNat), (9, mt), (1, s7.toNat), (11, p), (1, s8.toNat),
+      (12, rh), (5, 0)] ++ par) = .val true := by
+  have hl := mb45_length s1 turb s2 ws s3 mb s4 ic s5 wv s6 gt mt s7 p s8 rh
+  have hlen : (hdr ++ Infer.mb45 s1 turb s2 ws s3 mb s4 ic s5 wv s6 gt mt s7 p s8 rh ++ par).length = 112 := by
+    simp only [List.length_append, hh, hp, hl]
+  show is45 (hdr ++ Infer.mb45 s1 turb s2 ws s3 mb s4 ic s5 wv s6 gt mt s7 p s8 rh ++ par) = .val true
+  rw [is45_val _ hlen, mbOf_frame hdr _ par hh hl,
+    is45P_mb45 s1 turb s2 ws s3 mb s4 ic s5 wv s6 gt mt s7 p s8 rh h1 h2 h3 h4 h5 h6 h7 h8 z1 z2 z3 z4 z5 z6 z7 z8
+      ht hne]
+
+/-- … and therefore "BDS45" is in `infer`'s answer for such a Comm-B reply when `mrar` is requested -/
+theorem infer_reports_45 (ias : Rat → Int → Rat) (bits : Bits) (h : bits.length = 112)
+    (h45 : is45 bits = .val true) : "BDS45" ∈ labelsP ias bits true := by
+  rw [is45_val bits h] at h45
+  injection h45 with h45
+  exact (label_mem_iff ias bits true).2.2.2.2.2.2.1.mpr ⟨h45, rfl⟩
+
+/-- a DF20 frame with a BDS 4,5-looking payload: light turbulence, moderate icing, temperature field −210 (−52.5 °C),
+    pressure 260 hPa, radio height field 1000 -/
+def exFrame45 : Bits := natToBits 32 0xA0001838 ++ build [(1, 1), (2, 1), (1, 0), (2, 0), (1, 0), (2, 0), (1, 1), (2, 2),
+  (1, 0), (2, 0), (1, 1), (1, 1), (9, 302), (1, 1), (11, 260), (1, 1), (12, 1000), (5, 0)] ++ natToBits 24 0x123456
+
+theorem exFrame45_length : exFrame45.length = 112 := by decide
+
+/-- the hypotheses of `is45_complete` are met by a concrete payload -/
+example : is45 exFrame45 = .val true :=
+  is45_complete _ _ (by decide) (by decide) true 1 false 0 false 0 true 2 false 0 true true 302 true 260 true 1000
+    (by decide) (by decide) (by decide) (by decide) (by decide) (by decide) (by decide) (by decide)
+    (by decide) (by decide) (by decide) (by decide) (by decide) (by decide) (by decide) (by decide)
+    (by decide) (by decide)
+
+example : s9 true 302 = -210 := by decide
+
+example : "BDS45" ∈ labelsP (fun _ _ => 0) exFrame45 true :=
+  infer_reports_45 _ _ exFrame45_length
+    (is45_complete _ _ (by decide) (by decide) true 1 false 0 false 0 true 2 false 0 true true 302 true 260 true 1000
+      (by decide) (by decide) (by decide) (by decide) (by decide) (by decide) (by decide) (by decide)
+      (by decide) (by decide) (by decide) (by decide) (by decide) (by decide) (by decide) (by decide)
+      (by decide) (by decide))
+
+/-- both sides of `is45_iff` on concrete frames: temperature field 240 (+60 °C) accepted, 241 rejected, and a set
+    reserved bit rejected -/
+example : is45 (natToBits 32 0xA0001838 ++ build [(1, 0), (2, 0), (1, 0), (2, 0), (1, 0), (2, 0), (1, 0), (2, 0),
+    (1, 0), (2, 0), (1, 1), (1, 0), (9, 240), (1, 0), (11, 0), (1, 0), (12, 0), (5, 0)] ++ natToBits 24 0)
+    = .val true := by decide +kernel
+example : is45 (natToBits 32 0xA0001838 ++ build [(1, 0), (2, 0), (1, 0), (2, 0), (1, 0), (2, 0), (1, 0), (2, 0),
+    (1, 0), (2, 0), (1, 1), (1, 0), (9, 241), (1, 0), (11, 0), (1, 0), (12, 0), (5, 0)] ++ natToBits 24 0)
+    = .val false := by decide +kernel
+example : is45 (natToBits 32 0xA0001838 ++ build [(1, 0), (2, 0), (1, 0), (2, 0), (1, 0), (2, 0), (1, 0), (2, 0),
+    (1, 0), (2, 0), (1, 1), (1, 0), (9, 240), (1, 0), (11, 0), (1, 0), (12, 0), (5, 1)] ++ natToBits 24 0)
+    = .val false := by decide +kernel
+
+/-- `is53` exactly, in integers: not all zero, the five status rules (magnetic heading, IAS, Mach, TAS, vertical
+    rate), and for the values that are present IAS ≤ 500 kt (MB bits 14-23), Mach ≤ 1 (MB bits 25-33 × 0.008: field
+    ≤ 125), TAS ≤ 500 kt (MB bits 35-46 × 0.5: field ≤ 1000), |vertical rate| ≤ 8000 ft/min (sign MB bit 48,
+    magnitude MB bits 49-56, × 64: signed field in −125..125) -/
+theorem is53_iff (bits : Bits) (h : bits.length = 112) :
+    is53 bits = .val true ↔
+      (bin2int (mbOf bits) ≠ 0 ∧ statusP (mbOf bits) rules53 = true ∧
+        (bitAt (mbOf bits) 12 = true → fld (mbOf bits) 13 23 ≤ 500) ∧
+        (bitAt (mbOf bits) 23 = true → fld (mbOf bits) 24 33 ≤ 125) ∧
+        (bitAt (mbOf bits) 33 = true → fld (mbOf bits) 34 46 ≤ 1000) ∧
+        (bitAt (mbOf bits) 46 = true → -125 ≤ sval (mbOf bits) 47 48 56 ∧ sval (mbOf bits) 47 48 56 ≤ 125)) := by
+  rw [is53_val bits h, ← is53P_iff]
+  constructor
+  · intro hv; injection hv
+  · intro hv; rw [hv]
+
+/-- both sides of `is53_iff` on concrete frames (heading, IAS 280, Mach field, TAS field, vertical-rate field):
+    Mach field 125 and TAS field 1000 and vertical rate −125 are accepted, Mach field 126 is not -/
+example : is53 (natToBits 32 0xA0001838 ++ build [(1, 1), (1, 0), (10, 300), (1, 1), (10, 280), (1, 1), (9, 125),
+    (1, 1), (12, 1000), (1, 1), (1, 1), (8, 131)] ++ natToBits 24 0) = .val true := by decide +kernel
+example : is53 (natToBits 32 0xA0001838 ++ build [(1, 1), (1, 0), (10, 300), (1, 1), (10, 280), (1, 1), (9, 126),
+    (1, 1), (12, 1000), (1, 1), (1, 1), (8, 131)] ++ natToBits 24 0) = .val false := by decide +kernel
 
 
 end PyModeS.C12
